@@ -50,6 +50,9 @@ def scenario_docs():
         [{'k': 'def', 'cmd': 'newcommand', 'name': N(), 'nargs': None, 'inner': ('nested-begin', K.H('NAME', 1))}, T()],
         [{'k': 'def', 'cmd': 'providecommand', 'name': N(), 'nargs': '1', 'inner': ('nested-end', K.H('NAME', 1))}],
         [{'k': 'def', 'cmd': 'renewcommand', 'name': N(), 'nargs': '2', 'inner': ('begin', K.H('NAME', 1))}, T()],
+        # environment names are arbitrary text between the braces
+        [env('[tex]', [], T()), T()],
+        [env('a-b', [br(T())], env('x.y', [], T()))],
         # plain TeX definitions: the defined command is an (unbraced) argument
         [{'k': 'tdef', 'name': N(), 'body': [T()]}, T(), cmd(N(), br(T()))],
         [C('p'), {'k': 'tdef', 'name': K.H('NAME', 2), 'body': [cmd(N(), br(T())), T()]}],
